@@ -157,6 +157,70 @@ def named_worker(job):
         shutil.rmtree(dd, ignore_errors=True)
 
 
+def cached_projects():
+    """Validation does not depend on what is cached: a project whose experiment //a:t2 already has a recorded version (with or
+    without git, recorded at an older commit), a dependency //b:t3 of it defined in ANOTHER COND file, and what lies below that
+    cached task being fine / dangling / cyclic; plain runs and runs with --this-commit / --at-least."""
+    out = []
+    for t3deps, d3 in (([], []), (["//b:nope"], [4]), (["//:t1"], [1])):
+        for git in (False, True):
+            for extra in ([], ["--this-commit"], ["--at-least", "@HEAD"], ["--again"]):
+                if extra and extra[0] in ("--this-commit", "--at-least") and not git:
+                    continue
+                files = {"": "group(name='t1', deps=['//a:t2'])\n",
+                         "a": "run_experiment(name='t2', run='true', deps=['//b:t3'])\n",
+                         "b": "run_command(name='t3', run='true', deps=%r)\n" % t3deps}
+                out.append({"files": files, "d": [[2], [3], d3], "t": 1, "git": git, "extra": extra})
+    return out
+
+
+def cached_worker(job):
+    spec, k = job
+    warnings.simplefilter("ignore")
+    dd = tempfile.mkdtemp(prefix="cvc14c_", dir=C.scratch_root())
+    try:
+        root = os.path.join(dd, "p")
+        os.makedirs(root)
+        with open(os.path.join(root, "cond_config.toml"), "w") as f:
+            f.write("" if spec["git"] else "disable_git = true\n")
+        for pkg, src in spec["files"].items():
+            os.makedirs(os.path.join(root, pkg), exist_ok=True)
+            with open(os.path.join(root, pkg, "COND"), "w") as f:
+                f.write(src)
+        commit = None
+        extra = list(spec["extra"])
+        if spec["git"]:
+            with open(os.path.join(root, ".gitignore"), "w") as f:
+                f.write("cond-out/\n")
+            P.git(root, "init", "-q")
+            P.git(root, "add", "-A")
+            P.git(root, "commit", "-q", "-m", "c0")
+            commit = P.git(root, "rev-parse", "HEAD")
+            with open(os.path.join(root, "notes.txt"), "w") as f:
+                f.write("later\n")
+            P.git(root, "add", "-A")
+            P.git(root, "commit", "-q", "-m", "c1")
+            extra = [P.git(root, "rev-parse", "HEAD") if a == "@HEAD" else a for a in extra]
+        # the experiment already has a recorded version (from an earlier invocation, at the older commit)
+        P.write_index(root, [{"task": "//a:t2", "ts": 50, "commit": commit, "dirty": False}])
+        os.makedirs(os.path.join(root, "cond-out", "a", "t2.task.50"), exist_ok=True)
+        code, err = mini_cli(["--debug", "run", "--check", "//:t1"] + extra, root)
+        check = classify(code, err)
+        if "HarnessTimeout" in err:
+            check = "hang"
+        res = C.fork_map(lambda _: FK.run_cond({"argv": ["--debug", "run", "//:t1"] + extra, "sched": {"seed": k}}, root), [0], nproc=1, timeout=60)[0]
+        if res is None or "_error" in res or "_timeout" in res:
+            run, spawns = "hang", 0
+        else:
+            st = res["status"]
+            run = classify(st if isinstance(st, int) else 70, res["stderr"])
+            spawns = sum(1 for e in res["events"] if e["e"] == "Spawn")
+        return {"id": k, "d": spec["d"], "t": spec["t"], "check": check, "run": run, "spawnsOnError": spawns if run != "ok" else 0,
+                "hasProj": False, "proj": "", "roots": [], "stderr": err[-300:] if check.startswith(("other", "crash")) else "", "spec": spec}
+    finally:
+        shutil.rmtree(dd, ignore_errors=True)
+
+
 class HarnessTimeout(BaseException):
     pass
 
@@ -377,6 +441,22 @@ def main(tier):
                               "names reused across packages: %s ; graph deps=%s target=t%d: cond run --check reported %r %s" % (
                                   {k_: v_.replace("\n", " ; ") for k_, v_ in r["files"].items()}, r["d"], r["t"], r["check"], r["stderr"]))
         rep.cov["named_projects"] = len(nrows)
+    # the same verdicts whatever is cached (recorded versions, older commits, --this-commit / --at-least / --again)
+    cps = cached_projects()
+    crows = C.fork_map(cached_worker, [(sp_, 2 * 10 ** 6 + i) for i, sp_ in enumerate(cps)], timeout=200)
+    crows = [r for r in crows if r is not None and "_error" not in r and "_timeout" not in r]
+    if len(crows) != len(cps):
+        rep.machinery("cached-project family: %d of %d projects observed" % (len(crows), len(cps)))
+    elif crows:
+        cverd, _ctr = judge(crows)
+        for r in crows:
+            bad = sorted(set(cverd[r["id"]]["viol"]) & CLAUSES)
+            if bad:
+                rep.violation({"clause": bad[0], "observed": r["check"], "proj": "", "family": "cached results below the target"},
+                              {"cached": r["spec"], "k": r["id"]},
+                              "with a recorded version of //a:t2 (git=%s) and `%s`: //b:t3 deps=%s: cond run --check reported %r, cond run %r %s" % (
+                                  r["spec"]["git"], " ".join(["run", "//:t1"] + r["spec"]["extra"]), r["spec"]["files"]["b"].strip(), r["check"], r["run"], r["stderr"]))
+        rep.cov["cached_projects"] = len(crows)
     rep.cov.update({
         "states": mc.distinct, "transitions": mc.generated, "traces_validated_against_impl": len(rows),
         "evaluations": len(rows) + len(sample), "distinct_nontrivial": nontriv,
@@ -397,7 +477,10 @@ def replay(path):
     with open(path) as f:
         body = json.load(f)
     RC.warm()
-    if "named" in body["scenario"]:
+    if "cached" in body["scenario"]:
+        rows = C.fork_map(cached_worker, [(body["scenario"]["cached"], body["scenario"]["k"])])
+        verdicts, _ = judge(rows)
+    elif "named" in body["scenario"]:
         nm = body["scenario"]["named"]
         rows = C.fork_map(named_worker, [(nm["files"], nm["d"], nm["t"], "//:top", body["scenario"]["k"])])
         verdicts, _ = judge(rows, nd=NAMED_ND)
